@@ -136,7 +136,37 @@ def correspond(ctx):
 
 # ---------------------------------------------------------------------------
 
-def _rand_seg(spt, r, start, scale, kind=None):
+def _rand_seg(spt, r, start, scale, kind=None, derive=True):
+    """a random segment that starts exactly at `start`.  One time in four the object handed out is DERIVED from a
+    freshly constructed one by the library's own operations (double reversal, rotation or uniform scaling about its
+    start point, a crop from 0, each optionally after its length / polynomial caches were filled): every property
+    quantifies over all segments, not only over freshly constructed ones, and derived objects carry whatever
+    internal state the operation left behind"""
+    seg = _fresh_seg(spt, r, start, scale, kind)
+    if not derive or r.random() >= 0.25:
+        return seg
+    P = spt.path
+    how = r.choice(['rev2', 'rot', 'scale', 'crop', 'warm-rev2', 'warm-rot'])
+    try:
+        if how.startswith('warm'):
+            seg.length()
+            if hasattr(seg, 'poly') and not isinstance(seg, P.Arc):
+                seg.poly()
+        if how in ('rev2', 'warm-rev2'):
+            out = seg.reversed().reversed()
+        elif how in ('rot', 'warm-rot'):
+            out = seg.rotated(r.choice([30, 90, -45.5, 180, 200.25]), origin=start)
+        elif how == 'scale':
+            out = seg.scaled(r.choice([0.5, 2.0, -1.5]), origin=start)
+        else:
+            out = seg.cropped(0, r.choice([0.5, 0.625, 1])) if not isinstance(seg, P.Arc) else seg.reversed().reversed()
+    except Exception:
+        return seg
+    # the callers chain segments by exact end points: keep the derived object only if it still starts exactly at `start`
+    return out if (out.start == start and out.start != out.end) else seg
+
+
+def _fresh_seg(spt, r, start, scale, kind=None):
     P = spt.path
     kind = kind or r.choice(['line', 'line', 'quad', 'cubic', 'arc'])
 
